@@ -264,6 +264,10 @@ impl SwiftField for Field52D {
                 parse_swift_chars(id, "Field 52D party identifier")?;
                 party_identifier = Some(format!("{}/{}", code, id));
                 start_idx = 1;
+            } else if line.is_empty() {
+                return Err(ParseError::InvalidFormat {
+                    message: "Field 52D party identifier is empty after '/'".to_string(),
+                });
             } else if line.len() <= 34 {
                 // Just /34x format
                 parse_swift_chars(line, "Field 52D party identifier")?;
